@@ -47,6 +47,11 @@ CHECKS = {
          "Honest sessions of a and b in both roles; an attacker with key e that relays any honest handshake message to any honest session, crafts InitHello with genuine/stolen/mismatched claims under its own ephemeral, answers honest initiators with RespHello claiming e's, a's or b's key signed with its own signature, a wrong-purpose signature, an empty one or any signature captured from other handshakes, and continues with InitDone / RespDone / data under the keys it derived. Every script up to depth 3 (quick) / 4 (thorough) is executed; after every single delivery each honest session that IsReady, accepts data or agrees to Send must report e's key or the key of an honest party owning a session with the same channel binding; early data must not change state.",
          "Signature unforgeability; the crafting menu is the attacker alphabet; longer scripts.",
          "5/C03", "seqmc"),
+ "C04": ("model_checking",
+         "exhaustive enumeration of usage/adversary scripts on p2pkeswarm over the in-memory transport (instrumented code, deterministic schedule) + free-running attacker-sequence enumeration for sshswarm and quicswarm",
+         "p2pkeswarm: honest A (each whitelist: all, only-B, none), B and an attacker E with its own key plus a raw foothold on the transport; every script up to depth 3 (quick) / 4 (thorough) of Tells to right and wrong identity@address combinations, peers telling A, and replays of the last captured packets from the raw address and from E's address: every delivered message must carry the identity (and in-handler LookupPublicKey key) of the owner of the transport address it came from and a payload that owner told; payloads addressed to identity X never reach a node without X's key; whitelisted-out peers get nothing delivered. sshswarm: every list of up to 3 (4) client authentication steps over {E valid, E bad signature, V-pubkey bad signature, E soft failure, V-pubkey soft failure} against the real server; quicswarm: three attacker TLS configurations; both: an honest dial of identity V at E's address must fail and deliver nothing.",
+         "The SSH/QUIC rows run free (real sockets on loopback, goroutines outside the scheduler): fault_enumeration strength for those stacks, waits use multi-second timeouts only to give up, never to accuse.",
+         "5/C04", "gosched"),
  "C05": ("model_checking",
          "exhaustive enumeration of adversary scripts (depth/deviation bounded DFS) over real p2pke.Channel objects with virtual time, from the initial and from established states",
          "Channel X under test with each acceptance predicate (accept-all, reject-all, only-b, only-e) and honest channels B and E; the adversary starts Sends in any order (simultaneous initiation, two RNG seeds for both tie-break outcomes), delivers any captured packet to any plausible target (X's packets to B or E), duplicates, drops, fires timers and restarts B, for every script up to depth 6 (quick) / 8 (thorough), also starting from scripted established sessions (X dialled B, B dialled X) so that rekey handshakes diverted to another key are reached. Whenever X's Send returns nil, X delivers data or emits a data-range ciphertext the remote key must satisfy the predicate; X's RemoteKey never changes; a foreign-key handshake inside the keep-alive window leaves the established session able to carry a probe each way.",
